@@ -101,3 +101,40 @@ func soup(n int) []byte {
 	}
 	return b
 }
+
+// cmdLongOffsets: expressions of several KB with unlisted -or-later forms far apart and an offender at the end, whose
+// position is known BY CONSTRUCTION (everything before it is lexically clean text the driver wrote itself): the error
+// must cite exactly that offset, and for an unknown id that lexeme.  (The same shape is trace-validated by TLC at
+// small sizes; for 8 KB strings the model's character-level scan is too slow to be used per event.)
+func cmdLongOffsets(args []string) int {
+	fs := flag.NewFlagSet("longoffsets", flag.ExitOnError)
+	seed := fs.Int64("seed", 1, "")
+	n := fs.Int("n", 60, "")
+	_ = fs.Parse(args)
+	g := newGen(*seed)
+	type bad struct {
+		Fn     string `json:"fn"`
+		Len    int    `json:"len"`
+		Want   int    `json:"wantOffset"`
+		Lex    string `json:"wantLexeme"`
+		Got    int    `json:"gotOffset"`
+		GotLex string `json:"gotLexeme"`
+		Tail   string `json:"tail"`
+		Panic  bool   `json:"panic"`
+	}
+	var bads []bad
+	for i := 0; i < *n; i++ {
+		ev, at, lex := g.longOffset()
+		ok := !ev.Panic && ev.Err && ev.Off == at && (lex == "" || ev.Lex == lex)
+		if !ok {
+			t := ev.RawE
+			if len(t) > 80 {
+				t = t[len(t)-80:]
+			}
+			bads = append(bads, bad{ev.Fn, len(ev.RawE), at, lex, ev.Off, ev.Lex, abstractOther(t), ev.Panic})
+		}
+	}
+	b, _ := json.Marshal(map[string]interface{}{"cases": *n, "bad": bads})
+	os.Stdout.Write(b)
+	return 0
+}
